@@ -43,6 +43,7 @@ pub open spec fn std_typedef(name: &str, size_t_is_usize: bool) -> Option<Seq<ch
 }
 """
 
+REVEAL = "reveal_strlit(\"int8_t\"); reveal_strlit(\"uint8_t\"); reveal_strlit(\"int16_t\"); reveal_strlit(\"uint16_t\"); reveal_strlit(\"int32_t\"); reveal_strlit(\"uint32_t\"); reveal_strlit(\"int64_t\"); reveal_strlit(\"uint64_t\"); reveal_strlit(\"size_t\"); reveal_strlit(\"uintptr_t\"); reveal_strlit(\"ssize_t\"); reveal_strlit(\"intptr_t\"); reveal_strlit(\"ptrdiff_t\"); reveal_strlit(\"i8\"); reveal_strlit(\"u8\"); reveal_strlit(\"i16\"); reveal_strlit(\"u16\"); reveal_strlit(\"i32\"); reveal_strlit(\"u32\"); reveal_strlit(\"i64\"); reveal_strlit(\"u64\"); reveal_strlit(\"usize\"); reveal_strlit(\"isize\");"
 PQ = "syn::parse_quote! { %s }"
 PRIM = {"int": "ty_int({signed}, {bytes})", "float": "ty_float({bytes})", "bool": "ty_bool()"}
 
@@ -97,9 +98,14 @@ UNIT = {
              "fk is LongDouble && (layout.unwrap().size == 4 || layout.unwrap().size == 8) ==> ty_is_float(r)",
              "fk is Float128 ==> ty_size(r) == 16 && ty_align(r) == 16",
          ]},
+        # the names bindgen itself vouches for on blocklisted types (unit vouch) are exactly the ones it maps to primitives
+        {"kind": "fn", "file": "bindgen/ir/context.rs", "name": "is_stdint_type", "impl": r"^impl BindgenContext$", "impl_header": "impl BindgenContext", "impl_name": "BindgenContext", "ret": "r",
+         "subst": [("self.options.size_t_is_usize", "self.options().size_t_is_usize", 1, "R5 field read")],
+         "proof_start": REVEAL,
+         "ensures": ["r == std_typedef(name, self.spec_options().size_t_is_usize).is_some()"]},
         {"kind": "fn", "file": "bindgen/codegen/mod.rs", "name": "type_from_named", "ret": "r",
          "subst": [("Option<syn::Type>", "Option<Tok>", 1, "R4")],
-         "proof_start": "reveal_strlit(\"int8_t\"); reveal_strlit(\"uint8_t\"); reveal_strlit(\"int16_t\"); reveal_strlit(\"uint16_t\"); reveal_strlit(\"int32_t\"); reveal_strlit(\"uint32_t\"); reveal_strlit(\"int64_t\"); reveal_strlit(\"uint64_t\"); reveal_strlit(\"size_t\"); reveal_strlit(\"uintptr_t\"); reveal_strlit(\"ssize_t\"); reveal_strlit(\"intptr_t\"); reveal_strlit(\"ptrdiff_t\"); reveal_strlit(\"i8\"); reveal_strlit(\"u8\"); reveal_strlit(\"i16\"); reveal_strlit(\"u16\"); reveal_strlit(\"i32\"); reveal_strlit(\"u32\"); reveal_strlit(\"i64\"); reveal_strlit(\"u64\"); reveal_strlit(\"usize\"); reveal_strlit(\"isize\");",
+         "proof_start": REVEAL,
          "ensures": [
              "match r { Some(t) => std_typedef(name, ctx.spec_options().size_t_is_usize) == Some(ty_prim_name(t)), None => std_typedef(name, ctx.spec_options().size_t_is_usize).is_none() }",
          ]},
